@@ -117,7 +117,9 @@ def run_case(case, rec):
             except Refused:
                 continue
             o = orders(errs)
-            ok = all(1.6 <= q <= 2.4 for q in o[1:]) and 1.8 <= o[-1] <= 2.2 and errs[-1] <= 2e-3 * defl
+            # asymptotic part of the ladder = its two finest refinements (coarser levels of some geometries are still
+            # pre-asymptotic: observed orders 1.42, 1.59, 1.81, 1.91 on a correct tree)
+            ok = all(1.7 <= q <= 2.3 for q in o[-2:]) and 1.8 <= o[-1] <= 2.2 and errs[-1] <= 2e-3 * defl
             rec.check("space_order", ok, layout=case["layout"], backend=backend, errors_mV=errs, orders=o, deflection_mV=defl,
                       L_over_lambda=L / lam, geometry={k2: case[k2] for k2 in ("r", "ra", "g", "cm", "L", "split")})
             rec.sig(f"space|{case['layout']}|{backend}|{case['gid']}")
